@@ -207,6 +207,29 @@ example : Wire.Ipfix.wfSet exAddr (Wire.Ipfix.applySet exAddr ([], []) (.tpl [k3
     (.data k3Tpl [[⟨[10,0,0,1], false⟩, ⟨[10,0,0,2], false⟩]] [0,0,0,0,0,0,0,0]) = false := by decide
 example : Wire.Ipfix.minRecLen k3Tpl = 8 ∧ Wire.Ipfix.minRecLen exTpl = 5 ∧ Ipfix.minRecLen exTpl = 5 := by decide
 
+/-- template with one variable-length field (interfaceName): its shortest record is the 1-octet length prefix
+of an empty string -/
+def vTpl : Template := ⟨256, 1, 0, [], [⟨82, 65535, 0⟩]⟩
+/-- one 6-octet record ("eth01" with a 1-octet prefix) followed by ONE zero octet -/
+def vMsg : Wire.Ipfix.Msg :=
+  { exportTime := 1700000000, seq := 10, domain := 1,
+    sets := [.tpl [vTpl] [], .data vTpl [[⟨[101,116,104,48,49], false⟩]] [0]] }
+
+set_option maxRecDepth 100000 in
+/-- **Where the old and the new well-formedness differ the other way.**  The old predicate (records longer than
+4 octets, `pad ≤ 4`) accepted this message and the old decoder skipped the zero octet; RFC 7011 §3.3.1 does not:
+the template's shortest record has 1 octet, so no padding at all is allowed, and the octet `00` IS a record (an
+empty interfaceName).  `wfDataPad` rejects the message and the repaired decoder reports two records.  This —
+templates with variable-length fields whose shortest record has at most 4 octets, "padded" with at least that many
+octets — is the only region the old theorems covered and the new ones do not; everywhere else the new
+preconditions are weaker.  (For NetFlow v9 there is no such region: `4 < recLen` and `pad ≤ 4` imply `pad < recLen`.) -/
+theorem padding_not_shorter_than_a_record_is_data :
+    Wire.Ipfix.minRecLen vTpl = 1 ∧
+    Wire.Ipfix.wfMsg exAddr [] vMsg = false ∧
+    Ipfix.recordsOf (Ipfix.decode [] exAddr (Wire.Ipfix.encodeMsg vMsg)).1 =
+      [[⟨82, 0, .str [101,116,104,48,49]⟩], [⟨82, 0, .str []⟩]] := by
+  refine ⟨by decide, by decide, by rfl⟩
+
 /-- The point `wfSpec` excludes (enterprise bit set, element id 0: outside the 1..32767 range RFC 7012 §4 gives
 enterprise-specific identifiers): the decoder tests `ElementID > 0x8000`, so the specifier `80 00` is taken as the
 IANA element 32768 WITHOUT an enterprise number, and the four enterprise-number octets that follow are read as the
